@@ -98,13 +98,14 @@ Lo == EnvN("LO", 0)
 Hi == EnvN("HI", 10)
 LMax == EnvN("LMAX", 2)
 
-IdxList == IF Mode \in {"list", "symlist", "cplist"} THEN ndJsonDeserialize(Env("IDXFILE", "")) ELSE <<>>
+IdxList == IF Mode \in {"list", "symlist", "cplist", "cplines"} THEN ndJsonDeserialize(Env("IDXFILE", "")) ELSE <<>>
 Table == LET lines == Lines(LMax) IN
          <<[lines |-> lines]>> \o
          (IF Mode = "list" THEN [k \in 1..Len(IdxList) |-> PatCase(ConcatAll([i \in 1..Len(IdxList[k]) |-> Tokens[IdxList[k][i]]]), lines)]
           ELSE IF Mode = "sym" THEN [k \in 1..(Hi - Lo) |-> PatCase(SymSeq(Lo + k - 1), <<>>)]
           ELSE IF Mode = "symlist" THEN [k \in 1..Len(IdxList) |->
                                      PatCase([i \in 1..Len(IdxList[k]) |-> Syms[IdxList[k][i]]], <<>>)]
+          ELSE IF Mode = "cplines" THEN [k \in 1..Len(IdxList) |-> PatCase(IdxList[k], lines)]
           ELSE IF Mode = "cplist" THEN [k \in 1..Len(IdxList) |-> PatCase(IdxList[k], <<>>)]
           ELSE IF Mode = "lit" THEN [k \in 1..(Hi - Lo) |-> PatCase(LitPat(Lo + k - 1), lines)]
           ELSE [k \in 1..(Hi - Lo) |-> PatCase(TokSeq(Lo + k - 1), lines)])
